@@ -26,6 +26,7 @@ import random
 import shutil
 import signal
 import sys
+import time
 
 from . import core
 from .core import natlit, listlit, boollit
@@ -316,7 +317,14 @@ def gen_spec(rng, H, backend, mode, driver):
             bops.append(['remove', gone])                      # `jug invalidate`
         if rng.random() < 0.3:
             rng.shuffle(bops)
+    # somebody READS lock files (cat, grep -r, backup) between the failure and the cleanup: their atime moves, their mtime
+    # (the failed marker of the file locks) does not
+    reads = []
+    if backend in ('file', 'filepack') and locks:
+        pr = rng.choice([0.0, 0.5, 1.0])
+        reads = [k for k, _ in locks if rng.random() < pr]
     spec = {
+        'reads': reads,
         'backend': backend, 'mode': mode, 'driver': driver,
         'spelling': spelling, 'build_spelled': build_spelled,
         'current': {'params': cur_params, 'pairs': [list(p) for p in cur_pairs], 'extras': extras},
@@ -506,6 +514,7 @@ def observe(env, keys, inproc=None, tasks=None):
     o['can_load'] = dict((k, bool(s.can_load(bx(k)))) for k in sorted(keys))
     if env.backend in ('file', 'filepack'):
         o['files'], o['pack'], o['temps'] = scan_file_store(env.jd)
+        o['raw_locks'] = raw_lock_files(env.jd)
     elif env.backend == 'dict':
         dm = sys.modules['jug.backends.dict_store']
         o['raw'] = scan_kv(list(env.dstore.store.items()), dm._LOCKED, dm._FAILED)
@@ -648,7 +657,8 @@ def oracle(spec, active, before, after):
         bad.append(('results', sorted(exp_r), sorted(ra)))
     if not weak and 'list_inproc' in after and set(after['list_inproc']) != exp_r:
         bad.append(('results (view of the store object the command used)', sorted(exp_r), after['list_inproc']))
-    lb = dict((k, f) for k, f in before['locks'])
+    # (file stores: which locks are failed is read off the lock files themselves - the mtime marker - not asked of is_failed())
+    lb = dict((k, f) for k, f in before.get('raw_locks', before['locks']))
     la = dict((k, f) for k, f in after['locks'])
     if mode in ('default', 'locks_only'):
         exp_l = {}
@@ -667,6 +677,11 @@ def oracle(spec, active, before, after):
     for k, v in after.get('task_can_load', []):
         if v != (k in exp_r):
             bad.append(('Task.can_load(%s)' % k, k in exp_r, v))
+    for name, o in (('before', before), ('after', after)):
+        if 'raw_locks' in o and o['raw_locks'] != sorted([k, bool(f)] for k, f in o['locks']):
+            # the lock files themselves (failed = the mtime is the marker) say the same as listlocks() / is_failed()
+            bad.append(('lock files on disk vs listlocks()/is_failed() of a new store object (%s the command)' % name,
+                        o['raw_locks'], sorted([k, bool(f)] for k, f in o['locks'])))
     if 'raw' in after:
         # the raw key space says the same as the API of the re-opened store
         rr = sorted(e[1] for e in after['raw'] if e[0] == 'result')
@@ -803,6 +818,32 @@ IMPORTS = 'From JugV Require Import Model.Cleanup.'
 
 
 # ---------------------------------------------------------------------------- one case end to end
+def read_lock_files(env, ks):
+    """what looking into a lock file does on a file system that records access times (independent of mount options):
+    the content is read, the atime becomes now, the mtime stays"""
+    for k in ks:
+        p = os.path.join(env.jd, 'locks', k + '.lock')
+        try:
+            with open(p, 'rb') as fh:
+                fh.read()
+            st = os.stat(p)
+            os.utime(p, (time.time(), st.st_mtime))
+        except OSError as e:
+            raise HarnessError('C10 harness: lock file %s cannot be read: %s' % (p, e))
+
+
+def raw_lock_files(jd):
+    """[[name, failed]] from the directory alone: a failed lock is a lock file whose MTIME is the failed marker"""
+    from jug.backends.file_store import file_based_lock
+    d = os.path.join(jd, 'locks')
+    out = []
+    if os.path.isdir(d):
+        for fn in sorted(os.listdir(d)):
+            if fn.endswith('.lock'):
+                out.append([fn[:-len('.lock')], int(os.stat(os.path.join(d, fn)).st_mtime) == file_based_lock._FAILED_TIMESTAMP[1]])
+    return sorted(out)
+
+
 def run_spec(spec, H, root):
     """build -> observe -> real command -> observe.  Returns (active, before, after, msg)."""
     env = build(spec, root)
@@ -817,6 +858,7 @@ def run_spec(spec, H, root):
     keys.update(spec['dump_before_pack'])
     keys.update(spec['dump_after_pack'])
     keys.update(k for k, _ in spec['locks'])
+    read_lock_files(env, spec.get('reads', []))
     before = observe(env, keys)
     state = {}
 
